@@ -56,6 +56,15 @@ class _PintParser(fp.Parser[PintRootBlock, ParserConfig]):
         if self._diskcache is None:
             return super().parse_file(path)
         content, _basename = self._diskcache.load(path, super().parse_file)
+        # The cache is keyed by the content of the file, but a parsed source
+        # remembers the file it was read from and its imports are resolved
+        # relative to it: an entry written for an identical file somewhere
+        # else must not be used for this one.
+        cached_path = getattr(content.parsed_source.opening, "path", None)
+        if cached_path is not None and pathlib.Path(cached_path).resolve() != (
+            pathlib.Path(path).resolve()
+        ):
+            return super().parse_file(path)
         return content
 
 
